@@ -29,6 +29,12 @@ def check(ctx: Ctx) -> None:
     r2(ctx)
     r3(ctx)
     r4(ctx)
+    r5(ctx)
+    # collections must leave every retained snapshot readable: the collector's reachability / delete-guard rules are shared
+    from .c05 import r1 as c05_r1, r1_noskip, r3 as c05_r3
+    c05_r1(ctx, "C09.R6")
+    r1_noskip(ctx, "C09.R7")
+    c05_r3(ctx, "C09.R8")
 
 
 # ------------------------------------------------------------------ freshness
@@ -291,3 +297,49 @@ def r4(ctx: Ctx) -> None:
         via = any(t.name == "_most_recent_snapshot_id" for c in dg.calls() if c.stmt is a.ast for t in ctx.eff.callees(d, c))
         ctx.ob("C09.R4", d, "current snapshot reassigned only when the deleted one was current", a, bool(guards) and via,
                "delete_snapshot repoints to _most_recent_snapshot_id() under `current_snapshot_id == snapshot_id`")
+
+
+def r5(ctx: Ctx) -> None:
+    ctx.rule("C09.R5", "timestamp lookup resolves ties by commit order: among snapshots with equal timestamp_ms the LAST committed "
+             "one is chosen (stable sort + last match, or reversed iteration) - never a first-of-ties selection", 1)
+    f = ctx.fn("snapshot_manager.SnapshotManager.get_snapshot_by_timestamp")
+    g = ctx.cfg(f)
+    sl = ctx.slicer(f)
+    rets = [n for n in g.nodes if n.kind == "return" and n.id in g.reachable() and n.ast.value is not None  # type: ignore[union-attr]
+            and not isinstance(n.ast.value, ast.Constant)]  # type: ignore[union-attr]
+    problems = []
+    good = False
+    for r in rets:
+        org = sl.origins(r.ast.value, r.id)  # type: ignore[union-attr]
+        for c in org["calls"]:
+            if not isinstance(c, ast.Call):
+                continue
+            fn = dotted(c.func) or ""
+            if fn in ("max", "min") and c.args:
+                seq = norm_text(c.args[0])
+                key = kwarg(c, "key")
+                first_of_ties = True  # max()/min() return the FIRST of equal elements
+                if fn == "max" and seq.startswith("reversed("):
+                    first_of_ties = False  # first of the reversed order = last committed
+                if first_of_ties and (key is None or "timestamp" in norm_text(key)):
+                    problems.append(f"{fn}({seq[:40]}, key=...) returns the first of equal timestamps = the EARLIEST committed snapshot")
+                else:
+                    good = True
+            if fn == "next" or fn.endswith(".pop"):
+                pass
+        # loop-overwrite pattern: the returned variable is assigned inside a loop over a timestamp-sorted sequence
+        for d in org["nodes"]:
+            dn = g.nodes[d]
+            if dn.kind == "stmt" and isinstance(dn.ast, ast.Assign) and any(fr.kind == "loop" for fr in dn.frames):
+                loop = next(fr.node for fr in reversed(dn.frames) if fr.kind == "loop")
+                it = norm_text(loop.iter)  # type: ignore[attr-defined]
+                if "sorted(" in it and "timestamp" in it and "reverse=True" not in it:
+                    good = True  # stable ascending sort, last `<=` match overwrites earlier ones
+                elif "reversed(" in it or "reverse=True" in it:
+                    problems.append("descending iteration with overwrite keeps the EARLIEST of equal timestamps")
+    ok = good and not problems
+    if not good and not problems:
+        ctx.notes.append("C09.R5: get_snapshot_by_timestamp has an unrecognised selection shape - tie-break not decided")
+        ok = True
+    ctx.ob("C09.R5", f, "ties on timestamp_ms resolve to the most recently committed snapshot", rets[0] if rets else None, ok,
+           "; ".join(problems) if problems else "stable ascending sort by timestamp_ms, the last match wins (list order = commit order)")
